@@ -5,6 +5,7 @@ use serde_json::Value;
 
 pub mod util;
 pub mod c03;
+pub mod c04;
 pub mod c05;
 pub mod c06;
 pub mod c07;
@@ -40,6 +41,7 @@ pub fn dispatch(prop: &str, m: &Model, ctx: &mut Ctx, facts: Option<&Value>) -> 
     }
     match prop {
         "C03" => c03::run(m, ctx),
+        "C04" => c04::run(m, ctx),
         "C05" => c05::run(m, ctx),
         "C06" => c06::run(m, ctx),
         "C07" => c07::run(m, ctx),
